@@ -14,6 +14,7 @@ mod sc;
 mod stationary;
 mod threshold;
 mod vmodel;
+mod vutil;
 
 /// Global allocator that fills every fresh allocation with a poison pattern (VPH_POISON=1|2),
 /// so that a returned matrix element that was never written shows up as garbage (C10).
@@ -107,6 +108,7 @@ fn main() {
             let count: usize = args.get(3).map(|s| s.parse().unwrap()).unwrap_or(60);
             parjac::run(prefix, count)
         }
+        "util" => vutil::run(args.get(2).expect("export file")),
         "threshold" => threshold::run(args.get(2).expect("export file")),
         "history" => history::run(args.get(2).expect("export file")),
         "stationary" => stationary::run(args.get(2).expect("export file")),
